@@ -27,7 +27,7 @@ CONSTANTS
   Slack = 0
   Bound = 0
   ZonedPanics = FALSE
-INVARIANTS TypeOK MechNat MetricsLanguage PktCSound PktTSound PktCPerDatagram PktTPerReply CreateOnlyValid CreateOnce RemoveOnce ReclaimedInTime CloseOnce AllReclaimed ShutdownReclaimed NoCrash HandleTotal FwdAuthentic ReplyAuthentic
+INVARIANTS TypeOK MechNat MetricsLanguage PktCSound PktTSound PktCPerDatagram PktTPerReply PktTSize CreateOnlyValid CreateOnce RemoveOnce ReclaimedInTime CloseOnce AllReclaimed ShutdownReclaimed NoCrash HandleTotal FwdAuthentic ReplyAuthentic
 PROPERTIES FailureIsolated
 VIEW View
 CHECK_DEADLOCK FALSE
